@@ -118,3 +118,16 @@ package cmd
 //@ ensures[C20] one_call_to_the_matching_rpc: count(RpcCall(_, _, _)) <= 1 && all(RpcCall, $1 == "kamal-proxy.Deploy") && count(RpcDial(_, _)) == 1
 //@ ensures[C20] fails_exactly_when_the_proxy_reports_an_error: all(RpcCall, $2 == (result == nil)) && (none(RpcCall) ==> result != nil)
 //@ ensures[C20] connection_closed: emitted(RpcCall(_, _, _)) ==> count(RpcClose(_)) == 1
+
+//@ func (*cmd.Table).AddRow
+//@ attr trusted_summary
+//@ requires t != nil && len(row) > 0
+//@ assigns t.Rows, t.ColumnWidths
+//@ emits TableRow(t, row[0], row[len(row) - 1], len(row))
+
+//@ func (*cmd.listCommand).displayResponse
+//@ assigns *
+//@ may_emit *
+//@ ensures[C20] every_row_shows_the_tls_flag_of_its_own_service: all(TableRow, $1 == "Service" || $2 == ite(old(haskey(response.Targets, $1) && response.Targets[$1].TLS), "yes", "no"))
+//@ ensures[C20] six_columns: all(TableRow, $3 == 6)
+//@ loop 1 invariant rows_so_far: all(TableRow, $1 == "Service" || $2 == ite(old(haskey(response.Targets, $1) && response.Targets[$1].TLS), "yes", "no")) && all(TableRow, $3 == 6)
